@@ -221,7 +221,9 @@ class HumanMessageSerializer:
         if serializer and beautify and not isinstance(var_val, VerbatimHumanVal):
             try:
                 pretty_data = serializer.deserialize(block, var_val, pod=True)
-                if pretty_data is not se.UNSERIALIZABLE:
+                # Only use the packed form if it packs back to exactly the value it stands for. Payloads may be
+                # encoded in ways the serializer wouldn't choose itself (a string missing its terminator, etc.)
+                if pretty_data is not se.UNSERIALIZABLE and cls._packs_back(serializer, block, var_val, pretty_data):
                     string += f"  {var_name} =| {cls._multi_line_pformat(pretty_data)}"
                     if serializer.AS_HEX and isinstance(var_val, int):
                         var_data = hex(var_val)
@@ -245,6 +247,15 @@ class HumanMessageSerializer:
                     var_data = "[[CIRCUIT_CODE]]"
         string += f"  {field_prefix}{var_name} = {var_data}"
         return string
+
+    @staticmethod
+    def _packs_back(serializer, block, var_val, pretty_data) -> bool:
+        if not isinstance(var_val, (bytes, bytearray)):
+            return True
+        try:
+            return serializer.serialize(block, pretty_data) == var_val
+        except:
+            return False
 
     @staticmethod
     def _multi_line_pformat(val):
